@@ -24,7 +24,7 @@ type vpC27Ident struct {
 
 func TestVP_C27_ledger_lifecycle(t *testing.T) {
 	c := kit.New(t, "C27", "rapid: on a genesis-loaded ledger (7 accepted nodes) a drawn sequence of 6..24 membership transactions - pledge (funded by a fresh XIN deposit), accept, remove - whose signer/payee come from a pool of 4 identities plus the genesis nodes (so repeats, wrong payees, retired signers, operations on the wrong node happen often), built valid or with one field off (extra of another identity, input of another node, second pledge while one is pending), each pushed through Validate -> LockInputs -> WriteTransaction -> WriteSnapshot; oracle (soundness): every operation that WriteSnapshot recorded is legal in the reference lifecycle machine at that moment, and ReadAllNodes(with and without history) equals the recorded history; rejections are only counted; non-trivial = history with pledge -> accept -> remove of a non-genesis node and >=2 refused operations; distinct by trace")
-	c.Require("recorded-pledge", "recorded-accept", "recorded-remove", "refused", "full-cycle")
+	c.Require("recorded-pledge", "recorded-accept", "recorded-remove", "refused", "full-cycle", "accept-in-round-0-snapshot")
 	kit.SetChecks(kit.N(40, 2500))
 	rapid.Check(t, func(t *rapid.T) {
 		l := vpLNewLedger(7, "c27l", 3)
@@ -134,10 +134,17 @@ func TestVP_C27_ledger_lifecycle(t *testing.T) {
 			recorded := false
 			var stage string
 			var err error
+			// an accept is the first snapshot (round 0, no references) of the joining
+			// node's own chain; half of the accepts are finalized that way, and
+			// without the common-level validation in front, so that the durable
+			// check inside the snapshot write is what decides
+			round0 := kind == "accept" && rapid.Bool().Draw(t, "accept_round0")
 			pan := vpLCatch(func() {
 				stage = "validate"
-				if err = ver.Validate(l.Store, ts, false); err != nil {
-					return
+				if !round0 {
+					if err = ver.Validate(l.Store, ts, false); err != nil {
+						return
+					}
 				}
 				stage = "lock"
 				if err = ver.LockInputs(l.Store, false); err != nil {
@@ -149,6 +156,25 @@ func TestVP_C27_ledger_lifecycle(t *testing.T) {
 				}
 				l.noteAdmitted(ver, kind)
 				stage = "finalize"
+				if round0 {
+					nid := id.signer.Hash().ForNetwork(l.NetId)
+					if head, _ := l.Store.ReadRound(nid); head == nil {
+						if err = l.Store.StartNewRound(nid, 0, nil, 0); err != nil {
+							return
+						}
+						sn := &common.Snapshot{Version: common.SnapshotVersionCommonEncoding, NodeId: nid, RoundNumber: 0, Timestamp: ts}
+						sn.AddTransaction(ver.PayloadHash())
+						sn.Signature = &crypto.CosiSignature{Mask: (1 << uint(len(l.NodeIds))) - 1}
+						sn.Hash = sn.PayloadHash()
+						snap := &common.SnapshotWithTopologicalOrder{Snapshot: sn, TopologicalOrder: l.Topo}
+						c.Class("accept-in-round-0-snapshot")
+						if err = l.Finalize(snap); err != nil {
+							return
+						}
+						recorded = true
+						return
+					}
+				}
 				snap := l.MakeSnapshot(rapid.IntRange(0, 6).Draw(t, "chain"), []crypto.Hash{ver.PayloadHash()}, ts)
 				if err = l.Finalize(snap); err != nil {
 					return
